@@ -338,7 +338,7 @@ theorem sound_arms : (arms : PArms) → ∀ (Γ : Ctx) (ctl : Ty) (st : MSt), st
       | true =>
         simp only [hd, ↓reduceIte] at h ⊢
         simp only [List.append_eq_nil_iff, List.nil_append, and_true] at h
-        obtain ⟨⟨ha, _⟩, hr⟩ := h
+        obtain ⟨ha, hr⟩ := h
         have := ihr { rt := t, dflt := some (checkExpr Γ true act).tys } rfl hr
         exact ⟨this.1, ArmsOK.dflt (iha ha) hj hd this.2⟩
       | false =>
